@@ -40,6 +40,9 @@ def run(tier):
     allv = []
     for n in ((4, 5, 6) if tier == "quick" else (4, 5, 6, 7)):
         allv += D.gen_forests("nav", n, wd)
+    # the same forests with the partial units in a dwz alt file (.gnu_debugaltlink): offsets of the two files collide
+    for n in ((4, 5) if tier == "quick" else (4, 5, 6)):
+        allv += D.gen_forests("altnav", n, wd)
     badm = [v for v in allv if not v["ok"]["nav"]]
     if badm:
         vd.observe("model:die_it_producer / fetch_parent break a navigation law", {"forest": badm[0]["forest"]})
@@ -57,7 +60,8 @@ def run(tier):
         F = v["forest"]
         nimp = sum(1 for d in F["die"] if d["tag"] == "imp")
         nested = any(d["tag"] == "imp" and F["die"][v["raw_parent"][k] - 1]["tag"] not in ("cu", "pu") for k, d in enumerate(F["die"]))
-        key = "generated forest (%d units, %d imports%s):" % (len(F["units"]), nimp, ", import below a non-root DIE" if nested else "")
+        key = "generated forest (%d units, %d imports%s%s):" % (len(F["units"]), nimp, ", import below a non-root DIE" if nested else "",
+                                                                 ", partial units in the alt file" if any(u.get("file") for u in F["units"]) else "")
         r = recs[per * i: per * (i + 1)]
         if not r[0] or r[0].get("status") != "ok":
             vd.observe(key + " cooked navigation query failed", {"observed": r[0], "file": b.path}); continue
